@@ -138,6 +138,20 @@ func corrupt(b behav.Behaviour, what string) (behav.Behaviour, bool) {
 				}
 			}
 		}
+	case "blocks":
+		// C10: the reference fragment of the first Blocks step that sees data is built
+		// from contents differing in one abstract bit of a block that has data
+		for _, s := range cpy[1:] {
+			if s.Str("op") == "Blocks" && len(s.Ints("post")) > 0 {
+				p := s.Ints("post")
+				code := p[0] - p[0]%10 // column 0 of the first row with data
+				if code == p[0] {
+					code = p[0] + 1
+				}
+				s["ckpost"] = toggle(s["post"], code)
+				return cpy, true
+			}
+		}
 	case "post":
 		last := cpy[len(cpy)-1]
 		last["post"] = toggle(last["post"], 0)
@@ -199,7 +213,17 @@ func Drive(checksums bool, fatal func(...interface{})) {
 			c := cs[0]
 			c.Loud = true
 			what := []string{"chg", "out", "post"}[len(jobs)%3]
+			if checksums {
+				// the last step of a C10 history is Blocks, whose expected ids come with post
+				what = []string{"blocks", "chg"}[len(jobs)%2]
+				if kind == "bsi" {
+					what = "chg"
+				}
+			}
 			cb, ok := corrupt(c.Beh, what)
+			if !ok && checksums {
+				continue
+			}
 			if !ok {
 				cb, _ = corrupt(c.Beh, "post")
 				what = "post"
